@@ -341,7 +341,7 @@ theorem parser_model_lines_wellformed (toks : List (RawKind × Bool)) (o : Parse
   intro ls hls
   obtain ⟨pt, hpt, hok⟩ := all2_mem_left hall ls hls
   unfold PassOK at hok
-  obtain ⟨s, hrun, hlines⟩ := hok
+  obtain ⟨s, hrun, hlines, _, _⟩ := hok
   have hp : pt.1 ∈ passes (toks.map (·.1)) := by
     rw [← hpasses]; exact List.mem_map_of_mem hpt
   obtain ⟨w1, w2, w3⟩ := file_lines_wellformed _ _ hp _ _ hrun
@@ -357,5 +357,281 @@ theorem parser_model_passes_are_machine_runs (toks : List (RawKind × Bool)) (o 
     (h : parseFileFull toks = some o) :
     All2 (PassOK (toks.map (·.1))) o.passLines o.traces ∧ o.traces.map (·.1) = passes (toks.map (·.1)) :=
   parseFileFull_passes toks o h
+
+end Pasfmt.C14
+
+namespace Pasfmt.C14
+
+theorem all2_mem_right {α β : Type} {R : α → β → Prop} {as : List α} {bs : List β} (h : All2 R as bs) :
+    ∀ b ∈ bs, ∃ a ∈ as, R a b := by
+  induction h with
+  | nil => intro b hb; cases hb
+  | cons hab _ ih =>
+    intro b hb
+    rcases List.mem_cons.1 hb with rfl | hb'
+    · exact ⟨_, List.mem_cons_self, hab⟩
+    · obtain ⟨a, ha, hr⟩ := ih b hb'
+      exact ⟨a, List.mem_cons_of_mem _ ha, hr⟩
+
+theorem consolidateAll_keeps (acc : List PLine) (pls : List (List PLine)) (out : List PLine)
+    (h : consolidateAll acc pls = some out) :
+    (∀ l ∈ acc, ∃ l' ∈ out, l'.tokens = l.tokens) ∧
+    (∀ ls ∈ pls, ∀ l ∈ ls, l.tokens ≠ [] → ∃ l' ∈ out, l'.tokens = l.tokens) := by
+  induction pls generalizing acc with
+  | nil =>
+    simp [consolidateAll] at h; subst h
+    exact ⟨fun l hl => ⟨l, hl, rfl⟩, by intro ls hls; cases hls⟩
+  | cons ls rest ih =>
+    unfold consolidateAll at h
+    split at h
+    · simp at h
+    · rename_i acc' hacc
+      obtain ⟨k1, k2⟩ := consolidate_keeps_tokens acc [] ls acc' hacc
+      obtain ⟨r1, r2⟩ := ih acc' h
+      refine ⟨?_, ?_⟩
+      · intro l hl
+        obtain ⟨l1, hl1, e1⟩ := k1 l hl
+        obtain ⟨l2, hl2, e2⟩ := r1 l1 hl1
+        exact ⟨l2, hl2, e2.trans e1⟩
+      · intro ls' hls' l hl hne
+        rcases List.mem_cons.1 hls' with rfl | hr
+        · obtain ⟨l1, hl1, e1⟩ := k2 l hl hne
+          obtain ⟨l2, hl2, e2⟩ := r1 l1 hl1
+          exact ⟨l2, hl2, e2.trans e1⟩
+        · exact r2 ls' hr l hl hne
+
+theorem dirKindsKept_spec : ∀ (a b : List RawKind), dirKindsKept a b = true →
+    a.length = b.length ∧ ∀ (i : Nat), (∀ x : RawKind, a[i]? = some x → isDirectiveRaw x = true → b[i]? = some x) ∧
+      (∀ y : RawKind, b[i]? = some y → isDirectiveRaw y = true → a[i]? = some y)
+  | [], [], _ => ⟨rfl, fun i => ⟨by intro x hx; simp at hx, by intro y hy; simp at hy⟩⟩
+  | [], _ :: _, h => by simp [dirKindsKept] at h
+  | _ :: _, [], h => by simp [dirKindsKept] at h
+  | x :: as, y :: bs, h => by
+    simp only [dirKindsKept, Bool.and_eq_true, Bool.or_eq_true, Bool.not_eq_true', beq_iff_eq] at h
+    obtain ⟨hxy, hrest⟩ := h
+    obtain ⟨hl, hi⟩ := dirKindsKept_spec as bs hrest
+    refine ⟨by simp [hl], ?_⟩
+    intro i
+    cases i with
+    | zero =>
+      constructor
+      · intro x' hx' hd
+        simp at hx'; subst hx'
+        rcases hxy with ⟨h1, _⟩ | h1
+        · rw [h1] at hd; cases hd
+        · simp [h1]
+      · intro y' hy' hd
+        simp at hy'; subst hy'
+        rcases hxy with ⟨_, h2⟩ | h1
+        · rw [h2] at hd; cases hd
+        · simp [h1]
+    | succ j => simpa using hi j
+
+theorem mem_attributedOf {kf : List RawKind} {pls : List (List PLine)} {t : Nat} :
+    t ∈ attributedOf kf pls ↔ (∃ ls ∈ pls, ∃ l ∈ ls, t ∈ l.tokens) ∧ (kf.getD t .rEof == .rCompilerDirective) = true := by
+  unfold attributedOf
+  simp only [List.mem_filter, List.mem_flatMap]
+
+/-- **Every token of the file is in a logical line of the parser model** (C14, coverage): a token that is not a
+    conditional directive is in some pass; the control flow consumed the whole pass, so the token is in a line of the
+    pass or was skipped; a skipped token is a compiler directive, which gets a directive line unless a line of some
+    pass holds it; conditional directives get directive lines; consolidation keeps the tokens of every non-empty
+    line.  No hypothesis on control flow: it is the exact model's own. -/
+theorem parser_model_covers_every_token (toks : List (RawKind × Bool)) (o : ParseFullOut)
+    (h : parseFileFull toks = some o) : ∀ i, i < toks.length → ∃ l ∈ o.lines, i ∈ l.tokens := by
+  intro i hi
+  obtain ⟨kinds, acc, _, hacc, hkept, _, hfinal⟩ := parseFileFull_spec toks o h
+  obtain ⟨hall, hpasses⟩ := parseFileFull_passes toks o h
+  obtain ⟨hlen, hk⟩ := dirKindsKept_spec _ _ hkept
+  have hi0 : i < (toks.map (·.1)).length := by simpa using hi
+  have hif : i < kinds.toList.length := by rw [← hlen]; exact hi0
+  obtain ⟨a1, a2⟩ := consolidateAll_keeps [] o.passLines acc hacc
+  obtain ⟨f1, f2⟩ := consolidate_keeps_tokens acc [] _ o.lines hfinal
+  -- a line of a pass that holds i survives both consolidations
+  have from_pass : (∃ ls ∈ o.passLines, ∃ l ∈ ls, i ∈ l.tokens) → ∃ l ∈ o.lines, i ∈ l.tokens := by
+    rintro ⟨ls, hls, l, hl, hil⟩
+    have hne : l.tokens ≠ [] := by intro e; rw [e] at hil; cases hil
+    obtain ⟨l1, hl1, e1⟩ := a2 ls hls l hl hne
+    obtain ⟨l2, hl2, e2⟩ := f1 l1 hl1
+    exact ⟨l2, hl2, by rw [e2, e1]; exact hil⟩
+  -- a directive that no pass line holds gets a directive line, which survives the last consolidation
+  have from_directive : ∀ k, kinds.toList[i]? = some k →
+      (k = .rCompilerDirective ∨ ∃ c, k = .rConditionalDirective c) →
+      i ∉ attributedOf kinds.toList o.passLines → ∃ l ∈ o.lines, i ∈ l.tokens := by
+    intro k hk' hkind hna
+    have hmem : (k, i) ∈ kinds.toList.zipIdx := by
+      rw [List.mem_zipIdx_iff_getElem?]; simpa using hk'
+    obtain ⟨l, hl, ht⟩ := directive_lines_cover _ 0 _ k i hmem hna hkind
+    obtain ⟨l2, hl2, e2⟩ := f2 l hl (by rw [ht]; simp)
+    exact ⟨l2, hl2, by rw [e2, ht]; simp⟩
+  cases hc : condKind? (toks.map (·.1))[i] with
+  | some c =>
+    -- a conditional directive: its kind is kept, it is never attributed, it gets a directive line
+    have hk0 : (toks.map (·.1))[i] = .rConditionalDirective c := by
+      unfold condKind? at hc
+      split at hc
+      · rename_i c' heq; simp at hc; subst hc; exact heq
+      · simp at hc
+    have hkf : kinds.toList[i]? = some (.rConditionalDirective c) :=
+      (hk i).1 _ (by rw [List.getElem?_eq_getElem hi0, hk0]) rfl
+    apply from_directive _ hkf (Or.inr ⟨c, rfl⟩)
+    intro hatt
+    have := (mem_attributedOf.1 hatt).2
+    rw [List.getD_eq_getElem?_getD, hkf] at this
+    simp at this
+  | none =>
+    obtain ⟨p, hp, hip⟩ := every_token_in_some_pass _ i hi0 hc
+    -- the pass, its trace and its final machine state
+    rw [← hpasses] at hp
+    obtain ⟨pt, hpt, rfl⟩ := List.mem_map.1 hp
+    have : ∃ ls ∈ o.passLines, PassOK (toks.map (·.1)) ls pt := all2_mem_right hall pt hpt
+    obtain ⟨ls, hls, s, hrun, hlines, hdone, hskip⟩ := this
+    obtain ⟨j, hj⟩ := List.getElem?_of_mem hip
+    rcases machine_covers_pass _ _ _ s hrun hdone j i hj with ⟨l, hl, hil⟩ | hsk
+    · exact from_pass ⟨ls, hls, l, by rw [← hlines]; exact hl, hil⟩
+    · obtain ⟨tok, htok, hkind⟩ := hskip j hsk
+      rw [hj] at htok
+      cases htok
+      have hkf : kinds.toList[i]? = some .rCompilerDirective := (hk i).1 _ hkind rfl
+      by_cases hatt : i ∈ attributedOf kinds.toList o.passLines
+      · exact from_pass (mem_attributedOf.1 hatt).1
+      · exact from_directive _ hkf (Or.inl rfl) hatt
+
+end Pasfmt.C14
+
+namespace Pasfmt.C14
+
+/-- consolidation invents no line: the tokens of every resulting line are those of a line it was given -/
+theorem consolidate_lines_from (acc : List PLine) (mapped : List Nat) (ls out : List PLine)
+    (h : consolidateGo acc mapped ls = some out) :
+    ∀ l' ∈ out, (∃ l ∈ acc, l'.tokens = l.tokens) ∨ (∃ l ∈ ls, l'.tokens = l.tokens) := by
+  induction ls generalizing acc mapped with
+  | nil => simp [consolidateGo] at h; subst h; intro l' hl'; exact Or.inl ⟨l', hl', rfl⟩
+  | cons line rest ih =>
+    unfold consolidateGo at h
+    split at h
+    · intro l' hl'
+      rcases ih _ _ h l' hl' with h1 | ⟨l, hl, e⟩
+      · exact Or.inl h1
+      · exact Or.inr ⟨l, List.mem_cons_of_mem _ hl, e⟩
+    · simp only at h
+      split at h
+      · simp at h
+      · split at h
+        · intro l' hl'
+          rcases ih _ _ h l' hl' with h1 | ⟨l, hl, e⟩
+          · exact Or.inl h1
+          · exact Or.inr ⟨l, List.mem_cons_of_mem _ hl, e⟩
+        · intro l' hl'
+          rcases ih _ _ h l' hl' with ⟨l, hl, e⟩ | ⟨l, hl, e⟩
+          · rcases List.mem_append.1 hl with h1 | h1
+            · exact Or.inl ⟨l, h1, e⟩
+            · simp at h1; subst h1
+              exact Or.inr ⟨line, List.mem_cons_self, e⟩
+          · exact Or.inr ⟨l, List.mem_cons_of_mem _ hl, e⟩
+
+theorem consolidateAll_lines_from (acc : List PLine) (pls : List (List PLine)) (out : List PLine)
+    (h : consolidateAll acc pls = some out) :
+    ∀ l' ∈ out, (∃ l ∈ acc, l'.tokens = l.tokens) ∨ (∃ ls ∈ pls, ∃ l ∈ ls, l'.tokens = l.tokens) := by
+  induction pls generalizing acc with
+  | nil => simp [consolidateAll] at h; subst h; intro l' hl'; exact Or.inl ⟨l', hl', rfl⟩
+  | cons ls rest ih =>
+    unfold consolidateAll at h
+    split at h
+    · simp at h
+    · rename_i acc' hacc
+      intro l' hl'
+      rcases ih acc' h l' hl' with ⟨l, hl, e⟩ | ⟨ls', hls', l, hl, e⟩
+      · rcases consolidate_lines_from acc [] ls acc' hacc l hl with ⟨l0, hl0, e0⟩ | ⟨l0, hl0, e0⟩
+        · exact Or.inl ⟨l0, hl0, e.trans e0⟩
+        · exact Or.inr ⟨ls, List.mem_cons_self, l0, hl0, e.trans e0⟩
+      · exact Or.inr ⟨ls', List.mem_cons_of_mem _ hls', l, hl, e⟩
+
+/-- the token of a directive line is one of the tokens the directive lines were made from -/
+theorem directive_lines_index (attributed : List Nat) (level : Nat) (toks : List (RawKind × Nat)) :
+    ∀ l ∈ directiveLinesGo attributed level toks, ∀ t ∈ l.tokens, ∃ k, (k, t) ∈ toks := by
+  induction toks generalizing level with
+  | nil => intro l hl; simp [directiveLinesGo] at hl
+  | cons x r ih =>
+    obtain ⟨k, idx⟩ := x
+    intro l hl t ht
+    have lift : (∃ k', (k', t) ∈ r) → ∃ k', (k', t) ∈ (k, idx) :: r := fun ⟨k', h'⟩ => ⟨k', List.mem_cons_of_mem _ h'⟩
+    have here : ∀ lv ty, l = ({ parent := none, level := lv, tokens := [idx], ltype := ty } : PLine) → ∃ k', (k', t) ∈ (k, idx) :: r := by
+      intro lv ty e
+      rw [e] at ht; simp at ht; subst ht
+      exact ⟨k, List.mem_cons_self⟩
+    unfold directiveLinesGo at hl
+    split at hl
+    · exact lift (ih _ l hl t ht)
+    · split at hl
+      · rcases List.mem_cons.1 hl with e | h1
+        · exact here _ _ e
+        · exact lift (ih _ l h1 t ht)
+      · split at hl
+        · rcases List.mem_cons.1 hl with e | h1
+          · exact here _ _ e
+          · exact lift (ih _ l h1 t ht)
+        · split at hl
+          · rcases List.mem_cons.1 hl with e | h1
+            · exact here _ _ e
+            · exact lift (ih _ l h1 t ht)
+          · split at hl
+            · rcases List.mem_cons.1 hl with e | h1
+              · exact here _ _ e
+              · exact lift (ih _ l h1 t ht)
+            · exact lift (ih _ l hl t ht)
+      · exact lift (ih _ l hl t ht)
+
+/-- **Every logical line of the parser model is non-empty, lists token positions of the file in strictly
+    increasing order** (C14, first clause) - for every input on which the model answers, with no hypothesis on
+    control flow. -/
+theorem parser_model_final_lines_wellformed (toks : List (RawKind × Bool)) (o : ParseFullOut)
+    (h : parseFileFull toks = some o) :
+    ∀ l ∈ o.lines, l.tokens ≠ [] ∧ l.tokens.Pairwise (· < ·) ∧ ∀ t ∈ l.tokens, t < toks.length := by
+  obtain ⟨kinds, acc, _, hacc, hkept, _, hfinal⟩ := parseFileFull_spec toks o h
+  obtain ⟨hlen, _⟩ := dirKindsKept_spec _ _ hkept
+  have hpl := parser_model_lines_wellformed toks o h
+  have hne : ∀ l ∈ o.lines, l.tokens ≠ [] := by
+    have hacc_ne : ∀ l ∈ acc, l.tokens ≠ [] := by
+      -- every consolidated line is non-empty
+      have : ∀ (a : List PLine) (pls : List (List PLine)) (out : List PLine), (∀ l ∈ a, l.tokens ≠ []) →
+          consolidateAll a pls = some out → ∀ l ∈ out, l.tokens ≠ [] := by
+        intro a pls
+        induction pls generalizing a with
+        | nil => intro out ha h; simp [consolidateAll] at h; subst h; exact ha
+        | cons ls rest ih =>
+          intro out ha h
+          unfold consolidateAll at h
+          split at h
+          · simp at h
+          · rename_i a' ha'
+            exact ih a' out (consolidate_nonempty a [] ls a' ha ha') h
+      exact this [] o.passLines acc (by intro l hl; cases hl) hacc
+    exact consolidate_nonempty acc [] _ o.lines hacc_ne hfinal
+  intro l hl
+  refine ⟨hne l hl, ?_⟩
+  rcases consolidate_lines_from acc [] _ o.lines hfinal l hl with ⟨l0, hl0, e0⟩ | ⟨l0, hl0, e0⟩
+  · -- from a pass
+    rcases consolidateAll_lines_from [] o.passLines acc hacc l0 hl0 with ⟨l1, hl1, _⟩ | ⟨ls, hls, l1, hl1, e1⟩
+    · cases hl1
+    · obtain ⟨w1, w2, _⟩ := hpl ls hls
+      rw [e0, e1]
+      exact ⟨w1 l1 hl1, w2 l1 hl1⟩
+  · -- a directive line: exactly one token, a position of the file
+    obtain ⟨i, hi⟩ := directive_lines_single _ 0 _ l0 hl0
+    rw [e0, hi]
+    refine ⟨List.pairwise_singleton _ _, ?_⟩
+    intro t ht
+    simp at ht; subst ht
+    -- the token of a directive line is a position of `kinds.toList.zipIdx`
+    obtain ⟨k, hk⟩ := directive_lines_index _ 0 _ l0 hl0 t (by rw [hi]; simp)
+    have : t < kinds.toList.length := by
+      rw [List.mem_zipIdx_iff_getElem?] at hk
+      simp at hk
+      rcases Nat.lt_or_ge t kinds.size with h1 | h1
+      · simpa using h1
+      · rw [Array.getElem?_eq_none h1] at hk; cases hk
+    rw [← hlen] at this
+    simpa using this
 
 end Pasfmt.C14
